@@ -60,6 +60,15 @@ impl PartialEq for Addr {
     #[verifier::external_body]
     fn eq(&self, o: &Addr) -> (r: bool) ensures r == (*self == *o) { unimplemented!() }
 }
+// `&Addr == Addr` (cosmwasm-std addresses.rs: `impl PartialEq<Addr> for &Addr`, compares the values)
+impl<'a> PartialEqSpecImpl<Addr> for &'a Addr {
+    open spec fn obeys_eq_spec() -> bool { true }
+    open spec fn eq_spec(&self, o: &Addr) -> bool { **self == *o }
+}
+impl<'a> PartialEq<Addr> for &'a Addr {
+    #[verifier::external_body]
+    fn eq(&self, o: &Addr) -> (r: bool) ensures r == (**self == *o) { unimplemented!() }
+}
 // `Addr == String` (cosmwasm-std: compares the inner string)
 impl PartialEqSpecImpl<String> for Addr {
     open spec fn obeys_eq_spec() -> bool { true }
